@@ -56,6 +56,7 @@ const (
 	kSweep
 	kEOF
 	kFixture
+	kPosSweep // small leading paddings 0..130 on specifications whose diagnostics carry positions
 )
 
 var fixtures = []string{"ebnf.grammar", "pascal.grammar", "test.success.grammar", "test.invalid.grammar", "test.error.grammar"}
@@ -82,6 +83,13 @@ func (e Engine) Plan(tier string, seed uint64) []simrt.Case {
 	}
 	for f := range fixtures {
 		add(simrt.Mix(seed, 13, 4, uint64(f)), "fixture:"+fixtures[f], kFixture, f)
+	}
+	nPos := 8
+	if tier == "thorough" {
+		nPos = 80
+	}
+	for i := 0; i < nPos; i++ {
+		add(simrt.Mix(seed, 13, 5, uint64(i)), "position-sweep", kPosSweep, i)
 	}
 	// complete sweeps of the leading padding 0..3B+64, in chunks
 	B := ebnflexer.VerifBufferSize
@@ -112,11 +120,12 @@ func normPositions(s string, lay *gen.Layout) string {
 }
 
 func canonErr(err error, lay *gen.Layout) string {
+	// The order of the lines is part of what is reported: since the diagnostics of one specification
+	// come out in a fixed order (C15), a layout must not reorder them either.
 	lines := strings.Split(normPositions(err.Error(), lay), "\n")
 	for i := range lines {
 		lines[i] = strings.TrimSpace(lines[i])
 	}
-	sort.Strings(lines)
 	return "REJECTED\n" + strings.Join(lines, "\n")
 }
 
@@ -286,6 +295,8 @@ func (r *runner) check(st gen.Style, note string) bool {
 		class = "rejected_becomes_accepted"
 	case strings.Contains(have, "@?") || strings.Contains(have, "(offset "):
 		class = "position_wrong"
+	case strings.HasPrefix(want, "REJECTED") && strings.HasPrefix(have, "REJECTED") && sameLines(want, have):
+		class = "diagnostic_lines_reordered"
 	}
 	if len(sigs) > 0 {
 		class += "[" + strings.Join(sigs, ",") + "]"
@@ -295,6 +306,13 @@ func (r *runner) check(st gen.Style, note string) bool {
 	r.res.Violation.Detail = map[string]any{"style": st, "text_len": len(lay.Text), "tail": string(lay.Text[max(0, len(lay.Text)-80):])}
 	r.x.Tracef("style=%+v", st)
 	return false
+}
+
+func sameLines(a, b string) bool {
+	x, y := strings.Split(a, "\n"), strings.Split(b, "\n")
+	sort.Strings(x)
+	sort.Strings(y)
+	return strings.Join(x, "\n") == strings.Join(y, "\n")
 }
 
 func clip(s string) string {
@@ -337,6 +355,9 @@ func (e Engine) Run(t *simrt.Tape, c simrt.Case, x *simrt.Ctx) *simrt.Result {
 			res.Skipped++
 			return res
 		}
+	} else if kind == kPosSweep {
+		modes := []string{"duplicate_value", "duplicate_def", "literal_equals_token_value", "duplicate_value", "valid", "syntax_insert"}
+		s = gen.GenSpec(t, gen.GenOpts{ForceMode: modes[c.Args[1]%len(modes)], MaxRules: 2})
 	} else {
 		s = gen.GenSpec(t, gen.GenOpts{AllowInvalid: true})
 	}
@@ -468,6 +489,22 @@ func (e Engine) Run(t *simrt.Tape, c simrt.Case, x *simrt.Ctx) *simrt.Result {
 					if role == 2 && d == -1 {
 						res.Count("retract_across_boundary", 1)
 					}
+				}
+			}
+		}
+
+	case kPosSweep:
+		// line and column numbers cross their digit-count boundaries (9|10, 99|100) under small paddings
+		st0 := gen.Style{SepSeed: uint64(t.Draw(1 << 30)), FinalNL: 1}
+		for _, pk := range []int{4, 0, 3} {
+			for p := 0; p <= 130; p++ {
+				st := st0
+				st.PadKind, st.LeadPad = pk, p
+				if !r.check(st, fmt.Sprintf("position sweep: %d bytes of leading padding (kind %d)", p, pk)) {
+					return res
+				}
+				if p == 9 || p == 10 || p == 99 || p == 100 {
+					res.Key("possweep", s.Mode, pk, p)
 				}
 			}
 		}
